@@ -31,25 +31,16 @@ func (s *Shard) deleteObjs(cnr cid.ID, addrs []oid.ID) error {
 		return nil
 	}
 
-	hasWriteCache := s.hasWriteCache()
-	if hasWriteCache {
-		for _, addr := range addrs {
-			err := s.writeCache.Delete(oid.NewAddress(cnr, addr))
-			verifhook.Point("shard.delete.afterCache")
-			if err != nil && !errors.Is(err, apistatus.ErrObjectNotFound) && !errors.Is(err, writecache.ErrReadOnly) {
-				s.log.Warn("can't delete object from write cache", zap.Error(err))
-			}
-		}
-	}
-
+	// Metadata goes first: whatever the metabase still lists must stay readable
+	// if deletion is interrupted (or the metabase fails) at any point below.
 	res, diff, err := s.metaBase.Delete(cnr, addrs)
 	if err != nil {
 		return err // stop on metabase error ?
 	}
 	verifhook.Point("shard.delete.afterMeta")
 
-	if hasWriteCache && len(res) > len(addrs) { // res is empty if the metabase does not know the container
-		for _, id := range res[len(addrs):] { // the rest are addrs, removed above
+	if s.hasWriteCache() {
+		for _, id := range res {
 			err := s.writeCache.Delete(oid.NewAddress(cnr, id))
 			verifhook.Point("shard.delete.afterCache")
 			if err != nil && !errors.Is(err, apistatus.ErrObjectNotFound) && !errors.Is(err, writecache.ErrReadOnly) {
